@@ -101,7 +101,7 @@ func (e *Env) Close() { os.RemoveAll(e.Dir) }
 // Reset clears log, counters and failure script (between cases).
 func (e *Env) Reset() {
 	os.Remove(filepath.Join(e.Dir, "log"))
-	for _, d := range []string{"count", "fail", "conf"} {
+	for _, d := range []string{"count", "fail", "conf", "ip"} {
 		os.RemoveAll(filepath.Join(e.Dir, d))
 		os.MkdirAll(filepath.Join(e.Dir, d), 0755)
 	}
@@ -157,6 +157,22 @@ func NewDaemon(e *Env, conf galaxy.JsonConf, netConfDir string, pods []*corev1.P
 		return nil, err
 	}
 	return &Daemon{G: g, Kube: kube, Env: e}, nil
+}
+
+// NewDaemonWith builds a galaxy instance on a given API-server fake and port-mapping handler (a restarted daemon sees the same
+// API objects and the same kernel state as its predecessor).
+func NewDaemonWith(e *Env, conf galaxy.JsonConf, netConfDir string, kube *k8sfake.Clientset, pmh *portmapping.PortMappingHandler) (*Daemon, error) {
+	g, err := galaxy.VerifNewGalaxy(conf, netConfDir, nil, kube, pmh, nil)
+	if err != nil {
+		return nil, err
+	}
+	return &Daemon{G: g, Kube: kube, Env: e}, nil
+}
+
+// PinIP makes the fake plugins report ip for the container.
+func (e *Env) PinIP(containerID, ip string) {
+	os.MkdirAll(filepath.Join(e.Dir, "ip"), 0755)
+	os.WriteFile(filepath.Join(e.Dir, "ip", containerID), []byte(ip), 0644)
 }
 
 // AnyPod makes the fake API server answer every pod Get that would be NotFound with a copy of the template.
